@@ -167,6 +167,55 @@ def run(ctx: Ctx):
         off_ok = lin_atoms == {nf.norm(vg.mk("param", pn_[0])), nf.norm(vg.mk("param", pn_[1])), nf.norm(vg.mk("param", pn_[3]))} and ok
         ctx.ob("C15.b", "symmetric_transform:centred", off_ok, fs_.loc, "coordinates are centred at the offset before rotating", construct="symmetric_transform:offset-in")
     ctx.ob("C15.b", "symmetric_transform:rotation-is-isometry", ok, fs_.loc, why, construct="symmetric_transform:isometry")
+    # the angle 0 (copy 0 of the augmentation) must give back the instance: cos -> 1, sin -> 0 turns (x', y') into (x - o, y - o),
+    # and the reflection switch is off at phi = 0
+    ok0, why0 = False, "x_prime / y_prime / reflection switch not found"
+    if all(isinstance(v, vg.S) for v in (xp, yp, x0, y0)):
+        def at_zero(q):
+            out = nf.Poly()
+            for m, c in q.terms.items():
+                keep, dead = [], False
+                for aid, pw in m:
+                    a = nf.Poly.ATOMS.get(aid)
+                    if nf._fn(a) == "torch.sin":
+                        dead = True
+                    elif nf._fn(a) == "torch.cos":
+                        continue
+                    else:
+                        keep.append((aid, pw))
+                if not dead:
+                    out = out + nf.Poly({tuple(keep): c})
+            return out
+        same_xy = at_zero(nf.poly(xp)) == nf.poly(x0) and at_zero(nf.poly(yp)) == nf.poly(y0)
+        sw = None
+        for n in vg.walk(fr.ret):
+            if nf._fn(n) == "torch.where" and len(n.args) == 4 and nf._fn(n.args[3]) == "torch.cat":
+                sw = n.args[1]
+        off_at_zero = None
+        if sw is not None:
+            def asm(n):
+                c = nf.cmpnf(n)
+                if c is None:
+                    return None
+                P, op = c
+                import math as _m
+                k = 0                       # value of P at phi = 0
+                for mono, coef in P.terms.items():
+                    val = coef
+                    for aid, pw in mono:
+                        a = nf.Poly.ATOMS.get(aid)
+                        if a.op == "param" and a.args[0] == pn_[2]:
+                            val = 0
+                        elif a.op in ("ext", "global", "attr") and vg.show(a, 3).endswith("math.pi"):
+                            val = val * (_m.pi ** pw)
+                        else:
+                            return None
+                    k += val
+                return {">0": k > 0, ">=0": k >= 0, "==0": k == 0, "!=0": k != 0}[op]
+            off_at_zero = nf.kleene(sw, asm)
+        ok0 = same_xy and off_at_zero is False
+        why0 = f"at phi = 0: (x', y') = (x - o, y - o): {same_xy}; reflection switch evaluates to {off_at_zero} (must be False)"
+    ctx.ob("C15.b", "symmetric_transform:identity-at-zero-angle", ok0, fs_.loc, why0, construct="symmetric_transform:identity-at-zero")
     ret = fr.ret
     pr = nf.poly(ret)
     okr = False
